@@ -84,6 +84,8 @@ def check_C17(ctx):
         ctx.rule("STOP-FLAG").floor("proxy_senders[%s]" % cfg, 2, cfg)
         router.rule_lock_order(ctx, cfg, F)
         ctx.rule("LOCK-ORDER").floor("lock_sites[%s]" % cfg, 2, cfg)
+        # a stop request the router is never woken for is a shutdown() that waits for ever
+        router.rule_rt_pair(ctx, cfg, F)
     ctx.assume("the router value is dropped when run() returns (it is a temporary in the thread closure), which drops the receiver set")
 
 
@@ -109,6 +111,12 @@ def check_C07(ctx):
         router.rule_batch_order(ctx, cfg, F)
         ctx.rule("RT-ORDER").floor("select_consumers[%s]" % cfg, 2, cfg)
         rset.rule_set_id(ctx, cfg, F, "unix" if cfg == "K1" else "inprocess")
+    for cfg, F in ctx.configs(["K1"]):
+        # the router thread reads routed messages inside select(): a message that lost its per-message socket (one descriptor too many) parks that thread for every route
+        send.rule_fd_bound(ctx, cfg, F)
+    for cfg, F in ctx.configs(["K1", "K3"]):
+        # a message that fails to decode on the router thread gives its attachments back to the message (and so releases them): parked in the router thread's table they keep other routes' channels open
+        tls.rule_tls_restore(ctx, cfg, F)
     for cfg, F in ctx.configs(["K3"]):
         # a routed receiver that came from a one-shot server disconnects (and its callback is dropped) only if the rendezvous keeps no sender of its channel behind
         oss.rule_oss_own(ctx, cfg, F, "inprocess")
@@ -152,6 +160,8 @@ def check_C16(ctx):
     for cfg, F in ctx.configs(["K1", "K2"]):
         model = fd.build_model(F)
         fd.rule_fd_drop(ctx, cfg, F, model)
+        # "released rather than kept open": also not kept open by a child spawned while the undecoded message is held
+        fd.rule_cloexec(ctx, cfg, F, model)
     ctx.assume("bincode and serde return Err (do not panic or over-allocate) on malformed input")
     ctx.assume("RefCell::borrow_mut / LocalKey::with are not input-dependent panic sources (BORROW-SCOPE checks the former)")
 
@@ -174,6 +184,8 @@ def check_C15(ctx):
     for cfg, F in ctx.configs(["K1", "K3"]):
         # where the transport sets no limit (in-process), any number of attachments is carried: the index on the wire is a full usize, never a narrower integer
         ipcl.rule_idx_pos(ctx, cfg, F)
+        # "arrives with all of its attachments": a send nested in a Serialize impl neither takes the enclosing message's attachments along nor restarts its numbering
+        tls.rule_tls_restore(ctx, cfg, F)
     ctx.assume("the kernel truncates control data beyond msg_controllen and the receiver does not inspect MSG_CTRUNC, so the bound must be enforced by the sender")
 
 
@@ -228,6 +240,8 @@ def check_C10(ctx):
         # "neither call changes later behaviour": a receive hands back the receiver it was given, descriptor included
         recv.rule_recv_keeps_fd(ctx, cfg, F)
         ctx.rule("RECV-KEEPS-FD").floor("receive_methods[%s]" % cfg, 3, cfg)
+        # 'empty' comes from this call's own would-block, never from an errno left behind by an earlier call (a zero-length read sets none)
+        recv.rule_errno_fresh(ctx, cfg, F)
         recv.rule_msg_commit(ctx, cfg, F)
         ctx.rule("MSG-COMMIT").floor("error_exits[%s]" % cfg, 1, cfg)
         recv.rule_timeout_arm(ctx, cfg, F)
@@ -255,11 +269,15 @@ def check_C03(ctx):
         ctx.rule("ERR-MAP").floor("conversions[%s]" % cfg, 2, cfg)
         recv.rule_disc_origin(ctx, cfg, F)
         ctx.rule("DISC-ORIGIN").floor("disconnected_sites[%s]" % cfg, 1, cfg)
+        recv.rule_recv_conv(ctx, cfg, F)
+        ctx.rule("RECV-CONV").floor("receiving_fns[%s]" % cfg, 4, cfg)
     for cfg, F in ctx.configs(["K1", "K2"]):
         recv.rule_zero_read(ctx, cfg, F)
         ctx.rule("ZERO-READ").floor("recvmsg_sites[%s]" % cfg, 1, cfg)
         recv.rule_closed_origin(ctx, cfg, F)
         ctx.rule("CLOSED-ORIGIN").floor("closed_constructions[%s]" % cfg, 1, cfg)
+        # a message with one descriptor too many loses its per-message socket: the receive then waits on (and reports the end of) somebody else's channel
+        send.rule_fd_bound(ctx, cfg, F)
         model = fd.build_model(F)
         fd.rule_fd_drop(ctx, cfg, F, model)
         fd.rule_close_owned(ctx, cfg, F, model)
@@ -325,6 +343,8 @@ def check_C12(ctx):
         fd.rule_sock_type(ctx, cfg, F)
         # a client that dies before its first message has arrived makes accept() report an error; it is not waited out (no second accept(2))
         oss.rule_oss_samefd(ctx, cfg, F)
+        # an aborted message does not make the receive start over in blocking mode: "the receiver does not wait forever"
+        recv.rule_followup_blocking(ctx, cfg, F)
     ctx.assume("a dying sender closes both ends of its per-message socketpair (kernel), so the follow-up read returns 0")
 
 
@@ -341,6 +361,8 @@ def check_C09(ctx):
         ctx.rule("SEND-PROP").floor("fallible_calls[%s]" % cfg, 3, cfg)
         send.rule_peer_closed(ctx, cfg, F)
         ctx.rule("SEND-PEER-CLOSED").floor("followup_sites[%s]" % cfg, 1, cfg)
+        # a receiving end in transit counts: it must not be taken for the per-message socket of the message that carries it (which happens when that socket is the 65th descriptor)
+        send.rule_fd_bound(ctx, cfg, F)
     for cfg, F in ctx.configs(["K1", "K3"]):
         _result_used(ctx, cfg, F)
         tls.rule_tls_restore(ctx, cfg, F)
@@ -380,6 +402,15 @@ def _result_used(ctx, cfg, F):
                     R.ok("%s returns the result of %s" % (f.path, nm), f.loc(b), cfg)
                 else:
                     R.violate("%s:send-result-dropped" % strip_generics(f.path), "%s does not return the result of %s: a failed send would be reported as success" % (f.path, nm), f.path, f.loc(b), config=cfg)
+                # ... and there is no way round the transmission that still reports success (an early `return Ok(())` for an empty payload: the message is never
+                # queued, and a send to a vanished receiver reports success)
+                errs = [x for x in f.live_blocks() if not f.is_cleanup(x) and (
+                    (f.term(x)["t"] == "call" and "from_residual" in strip_generics(callee_name(f.term(x)))) or
+                    any(st["s"] == "assign" and st["rv"]["r"] == "agg" and st["rv"]["kind"].get("variant") == "Err" for st in f.stmts(x)))]
+                sends_here = [b2 for b2, t2 in f.calls() if strip_generics(callee_name(t2)) == nm]
+                if not f.all_paths_pass(0, set(sends_here) | set(errs))[0]:
+                    R.violate("%s:send-skipped" % strip_generics(f.path), "a path through %s returns success without calling %s: the message is not transmitted (and a vanished receiver goes unnoticed)" % (f.path, nm),
+                              f.path, f.loc(b), config=cfg)
     R.count("send_sites[%s]" % cfg, n)
 
 
@@ -455,6 +486,8 @@ def check_C02(ctx):
     for cfg, F in ctx.configs(["K4"]):
         # a receiver turned into a stream is still the channel's receiver: every route must get installed, every message forwarded once
         asyn.rule_as_loop(ctx, cfg, F)
+        # ... and the consuming task is woken for every message: Pending is only passed on from the forwarding channel
+        asyn.rule_as_poll(ctx, cfg, F)
     ctx.assume("SOCK_SEQPACKET keeps packet boundaries and per-socket FIFO order; crossbeam unbounded channels are FIFO")
 
 
@@ -558,6 +591,12 @@ def check_C04(ctx):
         # every receive offers the kernel the whole control buffer: a header reused from a previous receive has the previous message's control length in it
         scratch.rule_scratch_fresh(ctx, cfg, F)
         ctx.rule("SCRATCH-FRESH").floor("receive_sites[%s]" % cfg, 1, cfg)
+    for cfg, F in ctx.configs(["K1"]):
+        # a transferred receiver that is routed yields its backlog without making the router thread wait on a consumer
+        router.rule_forward_closure(ctx, cfg, F)
+    for cfg, F in ctx.configs(["K4"]):
+        # ... and one that is turned into a stream gets its route installed in the same cycle as every other route queued with it
+        asyn.rule_as_loop(ctx, cfg, F)
     ctx.assume("the kernel passes descriptors in SCM_RIGHTS in array order")
 
 
@@ -713,6 +752,9 @@ def check_C20(ctx):
         ctx.rule("AS-REMOVE").floor("closed_paths[%s]" % cfg, 1, cfg)
     for cfg, F in ctx.configs(["K4"]):
         rset.rule_set_unix(ctx, cfg, F)
+        # the routing thread stops for good on any select() error: once a message's first packet has been read, the receive has no error exit left that is about
+        # that one message only (descriptor shortage, truncated control data) -- those must not end every stream in the process
+        recv.rule_msg_commit(ctx, cfg, F)
     for c in ("K4", "K5"):
         if c in ctx.unavailable:
             ctx.rule("BUILD").violate("%s:does-not-compile" % c, "the async configuration %s does not compile: %s" % (c, ctx.unavailable[c][0]), config=c)
@@ -738,6 +780,9 @@ def check_C19(ctx):
     for cfg, F in ctx.configs(["K1", "K3"]):
         recv.rule_err_map(ctx, cfg, F)
         recv.rule_mode_table(ctx, cfg, F)
+        # every message handed to send is handed to the transport (an ideal FIFO delivers empty messages too), and a receive error is classified in one place
+        _result_used(ctx, cfg, F)
+        recv.rule_recv_conv(ctx, cfg, F)
         # 'empty' is 'empty' on every transport: the would-block answer of a polling receive is converted directly, in one place per layer
         recv.rule_try_conv(ctx, cfg, F)
         tls.rule_tls_restore(ctx, cfg, F)
@@ -769,6 +814,9 @@ def check_C19(ctx):
         send.rule_dedicated_last(ctx, cfg, F)
     for cfg, F in ctx.configs(["K3"]):
         ipcl.rule_shm_inproc(ctx, cfg, F)
+    for cfg, F in ctx.configs(["K1"]):
+        # a dropped receiver is gone on every transport: the OS transport closes its descriptor whatever number it has, so later sends fail as they do in-process
+        fd.rule_fd_drop(ctx, cfg, F, fd.build_model(F))
     ctx.assume("the macOS and Windows backends cannot be type-checked on this host and are out of scope")
 
 
